@@ -141,7 +141,7 @@ def extra_scenarios(tier, seed):
     rng = random.Random(seed)
     adds = [("x", 1), ("X", 2), ("y", 2), ("z", 3), ("Z", 1), ("Y", 3), ("w", 1), ("W", 2), ("V", 2), ("v", 1)]
     reqs = [("", "a"), ("", "b"), ("", "c"), ("", "s"), ("", "d"), ("external", "d"), ("", "q"), ("", "k"), ("y", "q"), ("x", "k"), ("x", "q"), ("X", "a"), ("x", "c"), ("y", "b"), ("z", "a"), ("external", "s"), ("external", "t"), ("External", "t"),
-            ("q", "a"), ("Z", "c"), ("scipy", "s"), ("SciPy", "s"), ("w", "a"), ("W", "b"), ("W", "a"), ("v", "b"), ("V", "a"), ("v", "a")]
+            ("q", "a"), ("Z", "c"), ("scipy", "s"), ("SciPy", "s"), ("w", "a"), ("W", "b"), ("W", "a"), ("v", "b"), ("V", "a"), ("v", "a"), ("x", "d"), ("y", "d"), ("Z", "d")]
     out = []
     for _ in range(2000 if tier == "quick" else 20000):
         calls = []
